@@ -120,25 +120,50 @@ def compare(data):
         return out, r, v
     if v.status == "valid":
         if r["verdict"] is not True:
-            out.append(("C01", "rejects-valid.%s" % error_class(r.get("error")), r.get("error")))
+            out.append(("C01", "rejects-valid.%s%s" % (error_class(r.get("error")), _cmd_in_error(r.get("error"), data)), r.get("error")))
         else:
             d = tree_diff(real_tree(r["result"]), ref_tree(v.tree))
             if d:
                 out.append(("C03", "tree." + _tree_class(d), d))
     elif v.status == "invalid":
         if r["verdict"] is True:
-            out.append(("C01", "accepts-invalid.%s" % v.reason, "reference: %s at token %s" % (v.reason, v.index)))
+            out.append(("C01", "accepts-invalid.%s%s" % (v.reason, "@" + v.cmd if v.cmd else ""),
+                        "reference: %s at token %s" % (v.reason, v.index)))
     else:  # outside the claim of C01; C07 still applies (gating) and C02 (no exception) was checked above
         pass
     return out, r, v
 
 
+def _cmd_in_error(err, data):
+    """which command the real parser was in when it rejected a valid script (from its error position)"""
+    m = re.search(r"for command (\w+)", err or "")
+    if m:
+        return "@" + m.group(1)
+    try:
+        from sievelib.parser import Parser
+        p = Parser()
+        p.parse(data)
+        line, col, ln = p.error_pos
+        lines = data.split(b"\n")
+        off = sum(len(x) + 1 for x in lines[:line - 1]) + col - 1
+        toks = ref.lex(data[:off])
+        depth = 0
+        for t in reversed(toks):
+            if t.kind == "identifier" and t.text.decode().lower() in ref.frozen.COMMANDS:
+                return "@" + t.text.decode().lower()
+    except Exception:
+        pass
+    return ""
+
+
 def _tree_class(d):
+    m = re.search(r"\[\d+:(\w+)\]: (argument|command)", d)
+    where = "@" + m.group(1) if m else ""
     if "commands in the result" in d:
         return "command-count"
     if "argument" in d:
-        return "argument"
-    return "other"
+        return "argument" + where
+    return "other" + where
 
 
 # ----------------------------------------------------------------------------- exhaustive token sequences
@@ -185,3 +210,247 @@ def enumerate_sequences(maxlen, budget_s, vocab=None, prefix_script=b""):
     for t in vocab:
         visit([t])
     return stats, findings, samples
+
+
+# ----------------------------------------------------------------------------- drivers used by the property plans
+
+class Findings(dict):
+    """class -> [count, order-independent digest of every failing (script, detail), first script, first detail]"""
+
+    def note(self, key, script, detail):
+        import hashlib
+        h = int(hashlib.sha256((script + "\x00" + str(detail)).encode("utf-8", "replace")).hexdigest()[:12], 16)
+        e = self.get(key)
+        if e is None:
+            self[key] = [1, h, script, detail]
+        else:
+            e[0] += 1
+            e[1] ^= h
+            if script < e[2]:
+                e[2], e[3] = script, detail
+
+    def merge(self, other):
+        for k, e in other.items():
+            m = self.get(k)
+            if m is None:
+                self[k] = list(e)
+            else:
+                m[0] += e[0]
+                m[1] ^= e[1]
+                if e[2] < m[2]:
+                    m[2], m[3] = e[2], e[3]
+
+    def violations(self, pid, group, pids):
+        out = []
+        for (p, cls), (n, dig, script, detail) in sorted(self.items()):
+            if p in pids:
+                out.append(("%s.P.%s.%s" % (pid, group, cls), {"script": script, "failing_cases_in_class": n},
+                            "%d case(s) in this class, digest %012x; first: %s" % (n, dig, detail)))
+        return out
+
+
+def _enum_task(args):
+    first, maxlen, budget = args
+    vocab = VOCAB
+    t0 = time.time()
+    stats = {"sequences": 0, "viable": 0, "timeout": False, "lexer_steps_max_ratio": 0.0}
+    findings = Findings()
+    samples = []
+
+    def visit(seq):
+        if time.time() - t0 > budget:
+            stats["timeout"] = True
+            return
+        data = b" ".join(seq)
+        stats["sequences"] += 1
+        dis, r, v = compare(data)
+        for (pid, cls, detail) in dis:
+            if b"text:" in data:
+                cls += "+multiline"
+            findings.note((pid, cls), data.decode("latin-1"), detail)
+        if len(samples) < 2 and not dis and v.status == "valid" and len(seq) >= 4:
+            samples.append({"script": data.decode("latin-1"), "verdict": "both accept, trees equal"})
+        if len(seq) >= maxlen:
+            return
+        dead_real = (r["verdict"] is False and "end of script reached" not in (r.get("error") or "")) or r["verdict"] == "exception"
+        dead_ref = v.status == "invalid" and v.index is not None
+        if dead_real and dead_ref:
+            return
+        stats["viable"] += 1
+        for t in vocab:
+            visit(seq + [t])
+
+    visit(list(first))
+    return stats, findings, samples
+
+
+def enumerate_parallel(maxlen, budget_s, jobs=16):
+    import multiprocessing as mp
+    tasks = [((a,), maxlen, budget_s) for a in VOCAB]
+    ctx = mp.get_context("fork")
+    with ctx.Pool(jobs) as pool:
+        results = pool.map(_enum_task, tasks, chunksize=1)
+    stats = {"sequences": 0, "viable": 0, "timeout": False}
+    findings = Findings()
+    samples = []
+    for st, f, s in results:
+        stats["sequences"] += st["sequences"]
+        stats["viable"] += st["viable"]
+        stats["timeout"] = stats["timeout"] or st["timeout"]
+        findings.merge(f)
+        samples += s
+    return stats, findings, samples[:4]
+
+
+def bounded_tokens(pid, tier, seed, pids=None):
+    """exhaustive token sequences (pruned where both parsers have already rejected a prefix)"""
+    maxlen = 4 if tier == "quick" else 5
+    stats, findings, samples = enumerate_parallel(maxlen, 120 if tier == "quick" else 1500)
+    vio = findings.violations(pid, "tokens", pids or (pid,))
+    return {"name": "token-sequences", "bound": "all sequences of <= %d tokens over a %d-token vocabulary (every token class, "
+            "commands of each kind, tags incl. upper case): %d sequences run, %d viable prefixes extended%s"
+            % (maxlen, len(VOCAB), stats["sequences"], stats["viable"], "; TIME BUDGET HIT" if stats["timeout"] else ""),
+            "rule": "distinct = token sequence; a prefix is not extended once both the real parser and the reference have "
+                    "rejected it at one of its tokens", "evaluations": stats["sequences"], "distinct": stats["viable"],
+            "samples": samples, "exhaustive": not stats["timeout"], "violations": vio}
+
+
+def bounded_generated(pid, tier, seed, pids=None):
+    """generated valid scripts x rendering styles, and single-token edits of them"""
+    from bounded import sieve_gen as g
+    rng = random.Random(seed or 1)
+    S = g.scripts(seed or 1)
+    evals = 0
+    distinct = set()
+    findings = Findings()
+    samples = []
+    gen_bugs = 0
+    for toks in S:
+        for style in ((0, 2, 5, 9) if tier == "quick" else range(12)):
+            data = g.render(toks, style)
+            v = ref.verdict(data)
+            if v.status != "valid":
+                gen_bugs += 1
+                continue
+            evals += 1
+            distinct.add(data)
+            dis, r, v = compare(data)
+            for (p, cls, detail) in dis:
+                if b"text:" in data:
+                    cls += "+multiline"
+                findings.note((p, cls), data.decode("latin-1"), detail)
+            if not dis and len(samples) < 2 and style:
+                samples.append({"script": data.decode("latin-1")[-120:], "verdict": "accepted, tree equals the source"})
+        for kind, i, t2 in g.single_edits(toks, rng, 6 if tier == "quick" else 30):
+            data = g.render(t2, 0)
+            evals += 1
+            distinct.add(data)
+            dis, r, v = compare(data)
+            for (p, cls, detail) in dis:
+                if b"text:" in data:
+                    cls += "+multiline"
+                findings.note((p, cls), data.decode("latin-1"), detail)
+            if not dis and v.status == "invalid" and len(samples) < 4:
+                samples.append({"script": data.decode("latin-1")[-100:], "edit": kind, "verdict": "both reject (%s)" % v.reason})
+    vio = findings.violations(pid, "generated", pids or (pid,))
+    return {"name": "generated-scripts", "bound": "%d generated valid scripts (every command, each tag alone and all tags in both "
+            "orders, string/list/multi-line values, nesting <= 2) x rendering styles (LF/CRLF/tabs, upper-case identifiers, "
+            "comments) + single-token edits: %d cases (%d generator outputs the reference itself did not accept were skipped)"
+            % (len(S), evals, gen_bugs), "rule": "distinct = script text", "evaluations": evals, "distinct": len(distinct),
+            "samples": samples, "exhaustive": False, "violations": vio}
+
+
+def counted_parse(data):
+    """real parse with a lexer-step counter (tokens yielded by Lexer.scan)"""
+    from sievelib.parser import Parser
+    p = Parser()
+    real_scan = p.lexer.scan
+    steps = {"n": 0}
+
+    def scan(text):
+        for tok in real_scan(text):
+            steps["n"] += 1
+            if steps["n"] > 4 * (len(text) + 2):
+                raise RuntimeError("lexer steps exceed 4*(len+2): no progress")
+            yield tok
+
+    p.lexer.scan = scan
+    try:
+        ok = p.parse(data)
+    except RuntimeError as e:
+        return "hang", str(e), steps["n"], p
+    except Exception as e:
+        return "exception", "%s: %s" % (type(e).__name__, e), steps["n"], p
+    return ok, None, steps["n"], p
+
+
+def check_c02_case(data):
+    """problems of one input w.r.t. C02: [(class, detail)]"""
+    ok, err, steps, p = counted_parse(data)
+    if ok == "hang":
+        return [("hang", err)]
+    if ok == "exception":
+        return [("exception.%s" % err.split(":")[0], err)]
+    out = []
+    raw = data.encode("utf-8") if isinstance(data, str) else data
+    if steps > 2 * len(raw) + 1:
+        out.append(("lexer-steps", "%d lexer steps for %d bytes" % (steps, len(raw))))
+    if ok is True:
+        if not isinstance(p.result, list):
+            out.append(("result-shape", repr(type(p.result))))
+    elif ok is False:
+        m = re.match(r"line (\d+): .+", p.error or "", re.S)
+        nl = raw.count(b"\n")
+        if not m or not (1 <= int(m.group(1)) <= 1 + nl):
+            out.append(("error-text", "error %r for %d newlines" % (p.error, nl)))
+        ep = getattr(p, "error_pos", None)
+        if not (isinstance(ep, tuple) and len(ep) == 3 and all(isinstance(x, int) for x in ep)):
+            out.append(("error-pos-shape", repr(ep)))
+    else:
+        out.append(("verdict-not-bool", repr(ok)))
+    return out
+
+
+def bounded_bytes(pid, tier, seed):
+    """byte-level mutations of valid scripts: invalid UTF-8, NUL, multi-byte text before the error point, truncation at
+    every offset, unterminated strings/comments/text blocks, identifiers colliding with internal class names"""
+    from bounded import sieve_gen as g
+    rng = random.Random(seed or 1)
+    base = [g.render(t, s) for t in g.scripts(seed or 1)[:: (12 if tier == "quick" else 3)] for s in (0, 2)]
+    extra = [b"control;", b"action;", b"test;", b"unknown;", b"command;", b"require;", b"if hasflag {", b"if hasflag ,",
+             "#ééééééé\nkeep \"a\";".encode(), b'keep "\xff";', b'require ["\xff"];', b"/* unterminated", b'"unterminated',
+             b"text:\nnever ends", b"if true { stop; } \xff", b"\x00", b"stop (true);", b"stop (true) header", b"",
+             "if header :is \"é\" \"é\" { keep } ".encode(), b"if anyof(true,) {}", b"[", b"]", b")", b"}", b";", b","]
+    evals = 0
+    distinct = set()
+    findings = {}
+    samples = []
+    for data in extra:
+        evals += 1
+        distinct.add(data)
+        for cls, detail in check_c02_case(data):
+            findings.setdefault(cls, (data.decode("latin-1"), detail))
+    inject = [b"\xff", b"\x00", b"\xc3", "é".encode(), b'"', b"/*", b"#", b"text:", b"{", b"("]
+    for data in base:
+        cuts = range(0, len(data), 7) if tier == "quick" else range(0, len(data), 2)
+        for c in cuts:
+            evals += 1
+            d2 = data[:c]
+            distinct.add(d2)
+            for cls, detail in check_c02_case(d2):
+                findings.setdefault(cls, (d2.decode("latin-1"), detail))
+        for _ in range(10 if tier == "quick" else 60):
+            i = rng.randrange(0, len(data) + 1)
+            d2 = data[:i] + rng.choice(inject) + data[i + rng.choice((0, 1)):]
+            evals += 1
+            distinct.add(d2)
+            probs = check_c02_case(d2)
+            for cls, detail in probs:
+                findings.setdefault(cls, (d2.decode("latin-1"), detail))
+            if not probs and len(samples) < 3:
+                samples.append({"script": d2.decode("latin-1")[-80:], "verdict": "terminated with True/False and a well-formed error"})
+    vio = [("%s.P.bytes.%s" % (pid, cls), {"script": s}, d) for cls, (s, d) in sorted(findings.items())]
+    return {"name": "byte-mutations", "bound": "%d inputs: truncation of %d rendered scripts at regular offsets, random single "
+            "byte-sequence injections (invalid UTF-8, NUL, quote, comment/text openers), and %d hand-picked degenerate inputs"
+            % (evals, len(base), len(extra)), "rule": "distinct = input bytes", "evaluations": evals, "distinct": len(distinct),
+            "samples": samples, "exhaustive": False, "violations": vio}
